@@ -56,7 +56,7 @@ def solve(task):
             out["reason"] = "ground pass: %s" % e
         # pass 1: E-matching only (fast, complete enough for the trigger-annotated VCs); pass 2: default configuration
         s = z3.SolverFor("ALL") if False else z3.Solver()
-        s.set("timeout", min(timeout_ms, 10000))
+        s.set("timeout", min(timeout_ms, 20000))
         s.set("auto_config", False)
         s.set("mbqi", False)
         s.from_string(smt2)
